@@ -418,6 +418,11 @@ def check(ctx):
                        f"writing label index {(mask or 0) + 1} stores index & {mask}, the item reads back another label", repo.method(it.ctor, "__init__").loc,
                        sample={"rule": "R12", "module": stem, "item": it.tag, "labels": len(g["items"]), "mask": mask})
     ctx.ob("R12", "writable-bit-field-enums::examined", n12 > 0, "no writable bit-field Enum item found")
+    # R13: the blocking path puts queued writes on the wire in the order they were made (the awaitable path sends from the
+    # caller, in call order): the blocking engine's send queue is first-in first-out (C20's engine model)
+    ctx.rule("R13", "writes reach the device in the order they were made, on both paths: the blocking engine's send queue, interpreted with several requests queued before the worker drains them, transmits them first-in first-out - a reversed queue leaves the FIRST value written in force and the two paths no longer emit identical device writes (C20.R1's engine model borrowed)")
+    from ..enginemodel import engine_obligations as _eo
+    _eo(ctx.borrowed("R13", "C20", only=("R1",), key_prefix="send-queue::fifo"), repo, "R1", "R2", "R3", "R4")
     ctx.count("R12:writable bit-field Enum items", n12)
     ctx.floor("R12", "writable bit-field Enum items", n12, 800)
     ctx.count("distinct_shapes", len(shapes))
